@@ -161,6 +161,50 @@ func generateAll(l *prog.Loaded) result {
 	return res
 }
 
+// generateTwice generates every target twice from one shared analysis (returning both passes) and
+// once from an analysis of its own (isolated): generating again, or after another target, must
+// not change any text.
+func generateTwice(l *prog.Loaded) (first, second, isolated result) {
+	first, second, isolated = result{outputs: map[string]string{}}, result{outputs: map[string]string{}}, result{outputs: map[string]string{}}
+	analyse := func() []*analysis.Analysis {
+		var ans []*analysis.Analysis
+		for i := range l.RootFiles {
+			an, pi := l.Analyse(i)
+			if pi != nil {
+				return nil
+			}
+			ans = append(ans, an)
+		}
+		return ans
+	}
+	shared := analyse()
+	if shared == nil {
+		return
+	}
+	run := func(res result, ans []*analysis.Analysis, t string) {
+		out, pi := l.RunTarget(t, ans)
+		if pi != nil {
+			res.outputs[t+"!"] = pi.Msg
+			return
+		}
+		for f, text := range out {
+			res.outputs[t+"/"+f] = text
+		}
+	}
+	for _, t := range prog.AllTargets {
+		run(first, shared, t)
+	}
+	for _, t := range prog.AllTargets {
+		run(second, shared, t)
+	}
+	for _, t := range prog.AllTargets {
+		if ans := analyse(); ans != nil {
+			run(isolated, ans, t)
+		}
+	}
+	return
+}
+
 type item struct {
 	family string
 	synth  func(explore.Chooser) *prog.Program
@@ -240,7 +284,7 @@ func runShard(tier string, shard, n int) shardResult {
 		var ch explore.Chooser
 		occ := map[string]int{}
 		var chosen []string
-		verifhook.Order = func(site string, keys []string) []int {
+		orderHook := func(site string, keys []string) []int {
 			occ[site]++
 			sr.Sites[site]++
 			if len(keys) > sr.MaxKeys {
@@ -257,6 +301,25 @@ func runShard(tier string, shard, n int) shardResult {
 			}
 			return ps[c]
 		}
+		// repetition: same texts from a second generation on the same analysis, and from analyses of their own
+		verifhook.Order = nil
+		g1, g2, iso := generateTwice(l)
+		sr.Runs += 3
+		for _, cmp := range []struct {
+			a, b result
+			what string
+		}{{g1, g2, "a second generation from the same analysis"}, {iso, g1, "generation after the other targets on a shared analysis (vs an analysis of its own)"}} {
+			if d := cmp.a.diff(cmp.b); d != "" {
+				target := d
+				if i := strings.IndexAny(d, "/! "); i > 0 {
+					target = d[:i]
+				}
+				sr.Failures = append(sr.Failures, evid.Failure{Clause: "C07/repetition-independent", Sig: "output of " + target + " changes with " + cmp.what,
+					Detail: cmp.what + ": first difference: " + d, Family: it.family, Vector: it.vec, Cost: explore.Cost(it.vec), Features: p.Features, Files: p.FilesMap()})
+				break
+			}
+		}
+		verifhook.Order = orderHook
 		st := explore.Stats{}
 		first := true
 		nontrivial := false
@@ -319,7 +382,7 @@ func main() {
 		return
 	}
 	r := evid.NewReport("C07", tier)
-	r.Rule = "programs of every family within 1 deviation of their scaffold x analysis + all targets (7, plus typescript/api for route files); every executed map range is a choice point whose alternatives are all n! orders (n <= 4) or reversal / rotations / adjacent transpositions / move-to-fronts (n > 4); every run with at most B non-canonical orders is compared byte for byte with the canonical-order run; a case is one (program, order vector); non-trivial = the program executes at least one map range with >= 2 keys"
+	r.Rule = "programs of every family within 1 deviation of their scaffold x analysis + all targets (7, plus typescript/api for route files); every executed map range is a choice point whose alternatives are all n! orders (n <= 4) or reversal / rotations / adjacent transpositions / move-to-fronts (n > 4); every run with at most B non-canonical orders is compared byte for byte with the canonical-order run; per program, every target is also generated twice from one shared analysis and once from an analysis of its own, and the three texts must be equal; a case is one (program, order vector); non-trivial = the program executes at least one map range with >= 2 keys"
 	r.Assumptions = []string{
 		"library pass: map iteration is the only source of nondeterminism before saveOutputs (no clock or randomness); goroutines are covered by the configuration-mode pass (Config.run of the CLI on a two-file module, dart + typescript/types, under the cooperative scheduler: every schedule within the deviation bound must write the files of the canonical schedule); the instrumenter rewrites every map range of the non-test files of analysis/... and generator/... (sites listed in the evidence)",
 	}
